@@ -174,6 +174,8 @@ def check(P, rep):
                   entry_id(g), 'true=%d false=%d unknown=%d' % (len(trues), len(falses), len(unknown)))
         r = g.reach(None, [e.node for e in ws])
         rep.check(not (r & trues), 'C02.R3', 'validate:true-needs-write', 'every `true` return is preceded by the Executed write', entry_id(g))
+        r2 = g.reach(None, [e.node for e in pubs])
+        rep.check(bool(pubs) and not (r2 & trues), 'C02.R3', 'validate:true-needs-event', 'every `true` return is preceded by the message_executed event', entry_id(g))
         after = g.states_after([e.node for e in ws + pubs])
         rep.check(not (after & falses), 'C02.R3', 'validate:false-effect-free', 'no effect precedes a `false` return', entry_id(g))
     else:
